@@ -9,6 +9,18 @@ import QmiModel.Lemmas.C20Case
 Property theorems only (helper lemmas: `Lemmas/C20*.lean`; model: `Model/Adbasic.lean`).
 Everything is quantified over *all* symbol lists / file maps / layouts / name lists / value
 assignments / device states — induction over the lists, no bounds.
+
+| statement of the property                                   | theorem(s)                                              |
+|---|---|
+| each name denotes exactly one register                      | `binding_injective`, `name_denotes_one_register`        |
+| no two names (ignoring case) denote the same register       | `binding_injective`, `names_resolve_injectively`        |
+| the binding is what the program says                        | `binding_complete`                                      |
+| a violating program is rejected, naming file and line       | `conflicting_definitions_rejected`, `violation_rejected_with_position`, `analyze_outcomes` (+ witness `index_too_long_escapes`) |
+| range merging                                               | `ranges_partition`                                      |
+| batch write ≡ one at a time                                 | `batch_set_eq_single`, `start_with_params_eq_single`    |
+| batch read ≡ one at a time, same values                     | `batch_get_eq_single`, `batch_get_eq_single_on_parsed_program` |
+| touches exactly the bound registers                         | `touches_exactly_bound_registers`                       |
+| parsing yields a result                                     | `parse_terminates` (acyclic includes — forced), `cyclic_include_never_terminates`, `parse_terminates_needs_acyclicity` |
 -/
 namespace QmiModel.Adbasic
 
@@ -186,8 +198,11 @@ example : (match analyze
     | .error (.parse e) => e.file == "i.inc".toList && e.line == 9 && e.kind == .dupRef
     | _ => false) = true := by decide +kernel
 
-/-- besides a binding and a parse error the analysis has exactly one more outcome — `ValueError` from
-`int()` on an index of more than 4300 digits (reported as a finding; witness replayed by the harness) -/
+/-- **analyze_outcomes.** Besides a binding and a parse error (`violation_rejected_with_position`) the
+analysis has exactly one more outcome: `ValueError` from `int()` on an index of more than 4300 digits.
+The full statement "the analysis returns a binding or raises ParseException" is therefore *false* of the
+faithful model — `index_too_long_escapes` is the witness, replayed on the real code by the harness
+(known finding `reject:escaped-ValueError:index-longer-than-4300-digits`). -/
 theorem analyze_outcomes (syms : List Sym) :
     (∃ b, analyze syms = .ok b) ∨ (∃ e, analyze syms = .error (.parse e)) ∨ analyze syms = .error .valueError := by
   cases h : analyze syms with
@@ -196,6 +211,12 @@ theorem analyze_outcomes (syms : List Sym) :
     cases e with
     | parse e => exact Or.inr (Or.inl ⟨e, rfl⟩)
     | valueError => exact Or.inr (Or.inr rfl)
+
+/-- negation witness: `#Define PAR_big Par_111…1` (4301 digits) is neither bound nor rejected with a position -/
+theorem index_too_long_escapes :
+    (match analyze [⟨"m.bas".toList, 3, "PAR_big".toList, "Par_".toList ++ List.replicate 4301 '1'⟩] with
+      | .error .valueError => true
+      | _ => false) = true := by decide +kernel
 
 /-! ## 2. `_find_sequential_ranges` -/
 
